@@ -47,7 +47,11 @@ def validate_runs(ctx, runs, exact=False, label="agp"):
     results = run_batches(jobs, max_workers=16)
     failures = []
     stats = {"events": 0, "runs": 0, "trials": 0, "argmax_comparisons": 0, "recalcs": 0, "states": 0, "by_n": {}, "cert": 0, "accstops": 0,
-             "cert_by_n": {}}
+             "cert_by_n": {}, "kinds": {}}
+    for r in runs:
+        for e in r.events:
+            k = e["ev"] + (":" + e.get("kind", e.get("name", "")) if e["ev"] in ("cb", "call") else "")
+            stats["kinds"][k] = stats["kinds"].get(k, 0) + 1
     for (n, ch, nev), res in zip(metas, results):
         v = verdict_of(res)
         if v is None or not res.ok:
